@@ -174,8 +174,11 @@ def cases(ctx):
             elif r < 0.85:
                 name = rng.choice(ops.catalogue_names())
                 steps.append(['op', rng.randint(0, 7), name, rng.randint(0, 10 ** 6)])
-            else:
+            elif r < 0.93:
                 steps.append([rng.choice(['pickle', 'deepcopy', 'copy', 'selector']), rng.randint(0, 7), rng.randint(0, 10 ** 6)])
+            else:
+                # a public call that is handed an array the caller keeps (and later writes to)
+                steps.append(['arr_arg', rng.randint(0, 7), rng.randint(0, 10 ** 6)])
         if i % (90 if quick else 1500) == 7:
             # a container longer than anything built so far in this process: library-wide caches that grow on demand
             # (the shared positions buffer) are rebuilt, and what they hand out afterwards must still be read-only
@@ -354,6 +357,44 @@ def run_step(step, live, r_aux):
         if r == 1:
             return f'Series(<{n} values>, index=<{n} labels>)', sf.Series(np.arange(n), index=np.arange(n) * 3 + 1)
         return f'IndexHierarchy.from_product(<{n}>, 2)', sf.IndexHierarchy.from_product(np.arange(n) * 2, ('a', 'b'))
+    if kind == 'arr_arg':
+        r = step[2]
+        fr = tgt if isinstance(tgt, sf.Frame) else next((o for o in live if isinstance(o, sf.Frame)), None)
+        se = tgt if isinstance(tgt, sf.Series) else next((o for o in live if isinstance(o, sf.Series)), None)
+        variant = r % 7
+        if variant in (0, 1, 2, 3, 4) and fr is not None and fr.shape[0] and fr.shape[1]:
+            n, m = fr.shape
+            a = (r // 7) % m
+            b = min(m, a + 1 + (r // 49) % 3)
+            if variant == 0:          # whole columns, 2-D value of the dtype the columns have
+                val = np.array(fr.iloc[:, a:b].values)
+                CALLER_EXTRA.append(val)
+                return f'Frame.assign.iloc[:, {a}:{b}](<caller 2-D array {val.dtype}>)', fr.assign.iloc[:, a:b](val)
+            if variant == 1:          # one column, 1-D value
+                val = np.array(fr.iloc[:, a].values)
+                CALLER_EXTRA.append(val)
+                return f'Frame.assign.iloc[:, {a}](<caller 1-D array {val.dtype}>)', fr.assign.iloc[:, a](val)
+            if variant == 2:          # some rows
+                r1 = max(1, n - 1)
+                val = np.array(fr.iloc[:r1, a:b].values)
+                CALLER_EXTRA.append(val)
+                return f'Frame.assign.iloc[:{r1}, {a}:{b}](<caller 2-D array>)', fr.assign.iloc[:r1, a:b](val)
+            if variant == 3:          # a grow-only frame is handed a column
+                val = np.array(fr.iloc[:, a].values)
+                CALLER_EXTRA.append(val)
+                g = fr.to_frame_go()
+                g['__caller__'] = val
+                return 'FrameGO.__setitem__(<caller 1-D array>)', g
+            val = np.array(fr.iloc[:, a:b].values)       # by label
+            CALLER_EXTRA.append(val)
+            return f'Frame.assign[labels {a}:{b}](<caller 2-D array>)', fr.assign[list(fr.columns)[a:b]](val)
+        if se is not None and len(se):
+            val = np.array(se.values)
+            CALLER_EXTRA.append(val)
+            if variant == 5:
+                return 'Series.assign.iloc[:](<caller 1-D array>)', se.assign.iloc[:](val)
+            return 'Series.isin / reindex with a caller array', se.iloc[: len(val)].assign.iloc[:](val)
+        raise LookupError('no target for arr_arg')
     if kind == 'pickle':
         return f'pickle({type(tgt).__name__})', pickle.loads(pickle.dumps(tgt))
     if kind == 'deepcopy':
@@ -369,6 +410,7 @@ def run_step(step, live, r_aux):
     raise ValueError(kind)
 
 
+CALLER_EXTRA = []    # arrays handed to the library by 'arr_arg' steps (moved into the caller's list after the step)
 BIG_NEXT = 1100      # length of the next 'big' container (beyond every capacity reached so far in this process)
 
 
@@ -472,6 +514,13 @@ def evaluate(ctx, c, outs):
                 desc, res = f'{step[:3]} raised {type(ex).__name__}', None
         ctx.count(f'kind_{step[0]}')
         check_all(desc, res)
+        if CALLER_EXTRA:
+            # the result of the call joins the live containers before the caller writes to what it handed over
+            if is_container(res) and len(live) < 8:
+                live.append(res)
+                snaps.append(snap(res))
+            caller.extend(CALLER_EXTRA)
+            del CALLER_EXTRA[:]
         caller_writes(desc)
         # returned containers join the pool
         cands = res if isinstance(res, list) else [res]
